@@ -65,10 +65,17 @@ CLAIMED = [
 ]
 
 # fragments written by the module builders are merged once their checks have been accepted by the coordinator
-READY_FRAGMENTS = set()
+READY_FRAGMENTS = {'C19', 'C20'}
 
 PENDING = {
 }
+
+ENGINES = [
+    dict(name='tla-vecread', path='spec/OVMVec.tla spec/OVMVecMC.tla spec/OVMVecTrace.tla spec/OVMReaders*.tla harness/vec_exec.cc harness/readers_exec.cc bin/vecread_check.py',
+         serves_properties=['C19', 'C20'],
+         kind_free_text='TLA+ definitions of the vector algebra / of const queries as atomic reads; TLC-generated operation scripts and reader programs executed on the C++ library (also under ThreadSanitizer); results validated by TLC'),
+]
+
 
 def load_fragments():
     d = os.path.join(VERIF, 'bin', 'manifest.d')
@@ -99,8 +106,8 @@ def main():
                         baseline_off_cmd='bin/baseline_off',
                         source_commits=['a138602'],
                         add_only=True),
-             engines=[dict(name='tla-kernel', path='spec/OVMKernel.tla spec/OVMKernelDefs.tla spec/OVMKernelMC.tla spec/OVMTrace.tla harness/ovm_exec.cc bin/kernel_check.py',
-                           serves_properties=sorted(claimed),
+             engines=ENGINES + [dict(name='tla-kernel', path='spec/OVMKernel.tla spec/OVMKernelDefs.tla spec/OVMKernelMC.tla spec/OVMTrace.tla harness/ovm_exec.cc bin/kernel_check.py',
+                           serves_properties=sorted(c['property_id'] for c in CLAIMED if c.get('engine') == 'tla-kernel'),
                            kind_free_text='explicit TLA+ specification checked by TLC; TLC-generated behaviours replayed on the C++ library; recorded traces validated by TLC')],
              checks=CLAIMED,
              notes='See DESIGN.md. Genuine defects found by the checks and repaired in /repo are listed in known_findings.jsonl as fixed: entries.',
